@@ -9,9 +9,22 @@ def _worker(mod_name, fn_name, seed, idx, extra):
     mod = importlib.import_module(mod_name)
     case = getattr(mod, "gen_case")(seed, idx, *extra)
     t0 = time.time()
-    out = getattr(mod, fn_name)(case)
+    try:
+        out = getattr(mod, fn_name)(case)
+    except Exception as e:
+        # an exception raised *inside the code under test* while a scenario is being built or run (a
+        # defect that belongs to another property, e.g. an internal error of the allocator while a
+        # multiplexer layout is set up) makes this case unusable; it is counted, not crashed on.
+        import traceback
+        tb = traceback.extract_tb(e.__traceback__)
+        inner = tb[-1].filename if tb else ""
+        if any(f.filename.startswith(lib.REPO + "/amaranth_soc") for f in tb) and not inner.startswith(lib.VERIF):
+            return {"skip": True, "code_exception": f"{type(e).__name__}: {str(e)[:160]} at {os.path.basename(inner)}:{tb[-1].lineno}",
+                    "idx": idx, "case": case}
+        raise
     out["case"] = case
     out["idx"] = idx
+    out["case_seed"] = seed
     out["impl_s"] = time.time() - t0
     return out
 
@@ -72,11 +85,31 @@ def correspondence(rep, *, prop, mod_name, driver_kind, ncases, extra=(), nontri
     only = os.environ.get("VERIF_ONLY_INDEX")
     if only is not None and only != "":
         indices = [int(x) for x in only.split(",")]          # ./check --replay
-    results = lib.pmap(_worker, [(mod_name, run_fn, rep.seed, i, tuple(extra)) for i in indices])
+    jobs = [(mod_name, run_fn, rep.seed, i, tuple(extra)) for i in indices]
+    # corpus: cases that exposed a seeded or past defect, replayed first on every run (any VERIF_SEED)
+    ncorpus = 0
+    if only is None or only == "":
+        cpath = os.path.join(lib.VERIF, "corpus", f"{prop}.json")
+        if os.path.exists(cpath):
+            import json
+            for e in json.load(open(cpath)):
+                if e.get("mod") == mod_name and list(e.get("extra", [])) == list(extra) and (e["seed"], e["idx"]) not in [(rep.seed, i) for i in indices]:
+                    jobs.insert(0, (mod_name, run_fn, e["seed"], e["idx"], tuple(extra)))
+                    ncorpus += 1
+    results = lib.pmap(_worker, jobs)
     errs = [r for r in results if "harness_error" in r]
     if errs:
         raise lib.Infra("harness error in worker: " + errs[0]["harness_error"] + "\n" + errs[0].get("tb", ""))
+    code_exc = [r for r in results if r.get("code_exception")]
+    nall = len(results)
     results = [r for r in results if not r.get("skip")]
+    if code_exc and len(code_exc) * 5 > nall:
+        # more than a fifth of the scenarios could not even be set up: the property is no longer shown to hold
+        rep.violation({"kind": "correspondence", "model": driver_kind, "case_index": code_exc[0]["idx"], "case": code_exc[0]["case"],
+                       "note": f"{len(code_exc)} of {nall} generated scenarios raised inside the code under test before the property could be exercised",
+                       "exception": code_exc[0]["code_exception"]}, False,
+                      f"{prop}: {len(code_exc)} of {nall} scenarios raise inside the code under test ({code_exc[0]['code_exception']}); "
+                      f"the property could not be exercised on them")
     if post:
         results = [post(r) for r in results]
     t_impl = time.time() - t0
@@ -124,7 +157,8 @@ def correspondence(rep, *, prop, mod_name, driver_kind, ncases, extra=(), nontri
                     rr, dd = r, d
             replay = {
                 "kind": "spec-violation" if fails else "correspondence", "tier": rep.tier,
-                "model": driver_kind, "case_index": rr["idx"], "case": rr["case"],
+                "model": driver_kind, "case_index": rr["idx"], "seed": rr.get("case_seed", rep.seed), "case": rr["case"],
+                "corpus_key": {"mod": mod_name, "extra": list(extra)},
                 "protocol_lines": rr["lines"][: (dd + 40) if dd is not None else 400],
                 "first_diff": None if dd is None else {
                     "obs_index": dd,
@@ -145,7 +179,8 @@ def correspondence(rep, *, prop, mod_name, driver_kind, ncases, extra=(), nontri
         "distinct_nontrivial": len(nontriv),
         "traces_validated_against_impl": len(results) - diffs,
         "correspondence_diffs": diffs, "oracle_failures": oracle_fails,
-        "protocol_lines": len(lines), "impl_s": round(t_impl, 1), "model_s": round(t_model, 1),
+        "scenarios_unusable_code_exception": len(code_exc),
+        "protocol_lines": len(lines), "impl_s": round(t_impl, 1), "model_s": round(t_model, 1), "corpus_cases": ncorpus,
         "distribution": dict(stats),
         "samples": samples,
     }
